@@ -301,7 +301,7 @@ Proof. intros cx ecx f ti tb. exact (conj (nf_op_call cx ecx f) (nf_op_call_indi
    m' on the renumbered slots equals running m, for every entry function, arguments, call depth and fuel.  Premises that stay visible: the local slot
    maps / frames of each function (follows from C19 / C03's local-map theorems; not yet connected), well-formedness of the bodies in the parse context,
    operators of the live code decodable with indices in range and memarg offsets below 2^32 (the recorded finding), fewer than 2^32 - 1 types. *)
-From WV Require Import Model.SemModOf Proofs.SemModEnd.
+From WV Require Import Model.SemModOf Proofs.SemModEnd Proofs.SemModEnd2.
 Section EndToEnd.
 Local Open Scope nat_scope.
 Theorem c01_parse_then_emit_preserves_whole_module_behaviour :
@@ -458,6 +458,51 @@ Theorem c01_table_renamed_with_the_functions :
 Proof. exact end_table. Qed.
 
 
+(* the same composition with the premises about the parsed bodies DISCHARGED from the stream (s54): well-formedness of the bodies in the parse
+   context, the local slot map of the output (exhibited: [lslot_end], the inverse of the emit-time local map of every function) with agreeing
+   frames, decodability of every live operator, and the ranges of global / function / type indices (from the success of emitM).  What is left:
+   local indices in range (an executable premise, shown NECESSARY below), memarg offsets < 2^32 (the recorded finding), memory / table indices
+   in range, fewer than 2^32 - 1 types / functions / globals *)
+Theorem c01_parse_then_emit_preserves_whole_module_behaviour_from_the_stream :
+  forall (cf : ModuleM.config) (ver : ModuleM.str) (w : ModuleM.wmod) (s : ParseM.pst) (ilen : IR.wins -> N) (e : EmitM.emitted) (m : SemMod.cmod),
+    ParseTotal.valid_stream w -> ParseM.parseM cf ver w = ParseM.POk s -> EmitM.emitM (ParseM.ps_m s) ilen nil = Common.Ok e -> stream_has_cmod w m ->
+    ModFix40.locals_in_range w ->
+    (N.of_nat (List.length (ParseM.types_list (ParseM.ps_m s))) <= 4294967295)%N ->
+    (N.of_nat (Renumbering.n_in s Ops.S_func) <= 4294967295)%N -> (N.of_nat (Renumbering.n_in s Ops.S_global) <= 4294967295)%N ->
+    (forall i d o, List.nth_error (SemMod.cm_funcs m) i = Some d -> List.In o (Sem.ops_of (SemMod.live (fd_body d))) -> op_ok_end3 s o) ->
+    let m' := out_cmod s e ilen m in
+    let E := SemMod.env_of m (fun _ => SemMod.idN) SemMod.idN SemMod.idN SemMod.idN SemMod.idN in
+    let E' := SemMod.env_of m' (lslot_end s e) (fslot_of (EmitM.em_x2i e)) SemMod.idN SemMod.idN SemMod.idN in
+    stream_has_cmod_ops (EmitM.em_secs e) m' /\
+    forall k fuel f args s0, SemMod.run_mod E' k fuel f args s0 = SemMod.run_mod E k fuel f args s0.
+Proof. exact sem_roundtrip_end_to_end_3. Qed.
+
+(* the premise "local indices in range" cannot be dropped: a stream with every other guarantee whose round trip behaves differently for EVERY
+   local slot map of the output (the input goes wrong on `local.get 0` in a function without locals; the output declares a local and returns) *)
+Theorem c01_local_index_range_is_necessary :
+  exists cf ver w s ilen e m,
+    ParseTotal.valid_stream w /\ ParseM.parseM cf ver w = ParseM.POk s /\ EmitM.emitM (ParseM.ps_m s) ilen nil = Common.Ok e /\ stream_has_cmod w m /\
+    (~ ModFix40.locals_in_range w) /\
+    (N.of_nat (List.length (ParseM.types_list (ParseM.ps_m s))) <= 4294967295)%N /\
+    (forall i d o, List.nth_error (SemMod.cm_funcs m) i = Some d -> List.In o (Sem.ops_of (SemMod.live (fd_body d))) -> op_ok_end2 s o) /\
+    forall lslot' : N -> N -> N, exists k fuel f args s0,
+      SemMod.run_mod (SemMod.env_of (out_cmod s e ilen m) lslot' (fslot_of (EmitM.em_x2i e)) SemMod.idN SemMod.idN SemMod.idN) k fuel f args s0 <>
+      SemMod.run_mod (SemMod.env_of m (fun _ => SemMod.idN) SemMod.idN SemMod.idN SemMod.idN SemMod.idN) k fuel f args s0.
+Proof. exact ExBad.sem_roundtrip_refuted_without_range. Qed.
+
+(* non-vacuity: every premise of the theorem above holds for a concrete three-function stream *)
+Theorem c01_from_the_stream_example :
+  let E := SemMod.env_of ExEnd.m0 (fun _ => SemMod.idN) SemMod.idN SemMod.idN SemMod.idN SemMod.idN in
+  let E' := SemMod.env_of (out_cmod ExEnd2.s0 ExEnd2.e0 ExEnd.il ExEnd.m0) (lslot_end ExEnd2.s0 ExEnd2.e0) (fslot_of (EmitM.em_x2i ExEnd2.e0)) SemMod.idN SemMod.idN SemMod.idN in
+  stream_has_cmod_ops (EmitM.em_secs ExEnd2.e0) (out_cmod ExEnd2.s0 ExEnd2.e0 ExEnd.il ExEnd.m0) /\
+  forall k fuel f args st, SemMod.run_mod E' k fuel f args st = SemMod.run_mod E k fuel f args st.
+Proof. exact ExEnd3.ex_end_to_end_3. Qed.
+
+(* a tree-shaped body is determined by its flat operator list *)
+Theorem c01_flat_list_determines_the_tree :
+  forall l1 l2 e1 e2, (ParseSpec.flat_list l1 ++ (IR.WEnd, e1) :: nil = ParseSpec.flat_list l2 ++ (IR.WEnd, e2) :: nil)%list -> l1 = l2 /\ e1 = e2.
+Proof. exact flat_list_inj. Qed.
+
 End EndToEnd.
 
 Print Assumptions c01_normal_form_is_equivalent.
@@ -487,3 +532,7 @@ Print Assumptions c01_emitted_function_body_is_the_renamed_normal_form.
 Print Assumptions c01_function_renumbering_injective_on_the_stream.
 Print Assumptions c01_function_renumbering_onto_on_the_stream.
 Print Assumptions c01_table_renamed_with_the_functions.
+Print Assumptions c01_parse_then_emit_preserves_whole_module_behaviour_from_the_stream.
+Print Assumptions c01_local_index_range_is_necessary.
+Print Assumptions c01_from_the_stream_example.
+Print Assumptions c01_flat_list_determines_the_tree.
